@@ -21,7 +21,8 @@
     buffer of ((last - first) >> 3) + 1 bytes with arbitrary content. *)
 From Coq Require Import NArith ZArith List Bool Sorting.Sorted Sorting.Permutation.
 From KdV Require Import Base.Wrap64 Pfn.BitmapModel Pfn.RegionModel Pfn.PfnSpec
-                        Pfn.BitmapProofs Pfn.RegionProofs.
+                        Pfn.BitmapProofs Pfn.RegionProofs
+                        Pfn.DdGeomModel Pfn.DdGeomProofs Pfn.ElfBitsModel Pfn.ElfProofs.
 Import ListNotations.
 Local Open Scope N_scope.
 
@@ -166,6 +167,139 @@ Theorem C07_bit_iff_descriptor_partial : forall maps p, wf_maps maps -> p < W ->
   exists o, page_desc_lookup maps p = Val o /\ (o = None <-> mapped maps p = false).
 Proof. exact page_lookup_iff_mapped. Qed.
 Print Assumptions C07_bit_iff_descriptor_partial.
+
+(** ** diskdump: which bitmap feeds which page map (read_bitmap) *)
+
+(** a dump with two bitmaps of [h] blocks each: for every [max_pfn] up to AND
+    INCLUDING the capacity 8 * h * bs of one bitmap (the exact-fill boundary),
+    every block size and block count, file.pagemap is read from the second
+    (dumpable) bitmap, memory.pagemap from the first (memory) bitmap, and
+    [max_pfn] is kept *)
+Theorem C07_diskdump_geometry_two_bitmaps : forall bs h max_pfn end_pfn,
+  0 < bs -> 1 <= h -> max_pfn <= 8 * h * bs ->
+  read_bitmap_geom false bs (2 * h) max_pfn end_pfn =
+  {| file_off := h * bs; file_size := h * bs; mem_off := 0; mem_size := h * bs;
+     max_pfn' := max_pfn;
+     scan_end := if end_pfn <? 8 * h * bs then end_pfn else 8 * h * bs |}.
+Proof. exact geom_two_bitmaps. Qed.
+Print Assumptions C07_diskdump_geometry_two_bitmaps.
+
+(** more frames than half the area describes: one bitmap feeds both maps *)
+Theorem C07_diskdump_geometry_one_bitmap : forall bs bb max_pfn end_pfn,
+  bb * bs * 8 / 2 < max_pfn ->
+  read_bitmap_geom false bs bb max_pfn end_pfn =
+  {| file_off := 0; file_size := bb * bs; mem_off := 0; mem_size := bb * bs;
+     max_pfn' := if bb * bs * 8 <? max_pfn then bb * bs * 8 else max_pfn;
+     scan_end := if end_pfn <? bb * bs * 8 then end_pfn else bb * bs * 8 |}.
+Proof. exact geom_one_bitmap. Qed.
+Print Assumptions C07_diskdump_geometry_one_bitmap.
+
+(** hence: the regions behind file.pagemap are the maximal runs of the dumpable
+    bitmap inside the file's window, those behind memory.pagemap the maximal
+    runs of the memory bitmap *)
+Theorem C07_diskdump_sources : forall al (mem dump : list N) bs h max_pfn,
+  0 < bs -> 1 <= h -> max_pfn <= 8 * h * bs ->
+  length mem = N.to_nat (h * bs) -> length dump = N.to_nat (h * bs) ->
+  wf_bytes mem -> wf_bytes dump ->
+  (forall start_pfn end_pfn descoff orc res orc',
+     dd_file_regions false al (mem ++ dump) bs (2 * h) max_pfn start_pfn end_pfn descoff orc = (res, orc') ->
+     match res with
+     | ROk rs => runs_from (bit_of false dump) start_pfn
+                           (if end_pfn <? 8 * h * bs then end_pfn else 8 * h * bs) descoff 24 true rs
+     | RNoMem _ => In false orc
+     | ROob | RFuel => False
+     end) /\
+  (forall orc res orc',
+     dd_mem_regions false al (mem ++ dump) bs (2 * h) max_pfn orc = (res, orc') ->
+     match res with
+     | ROk rs => runs_from (bit_of false mem) 0 (8 * h * bs) 0 0 true rs
+     | RNoMem _ => In false orc
+     | ROob | RFuel => False
+     end).
+Proof. exact dd_sources. Qed.
+Print Assumptions C07_diskdump_sources.
+
+(** "bit set <=> the read does not report missing data", as far as diskdump's
+    page lookup goes (supersedes C07_bit_iff_descriptor_partial by the max_pfn
+    test; the descriptor contents / decompression remain C01's) *)
+Theorem C07_diskdump_page_stored_partial : forall maps maxp p, wf_maps maps -> p < W ->
+  exists b, dd_page_stored maps maxp p = Val b /\ b = (p <? maxp) && mapped maps p.
+Proof. exact dd_page_stored_spec. Qed.
+Print Assumptions C07_diskdump_page_stored_partial.
+
+(** the comparison must be [<=]: with the narrowed test of seeded/C07-a1 a dump
+    whose bitmaps are exactly full is parsed as one double-length bitmap *)
+Theorem C07_diskdump_strict_test_refuted : forall bs h end_pfn, 0 < bs -> 1 <= h ->
+  file_off (read_bitmap_geom true bs (2 * h) (8 * h * bs) end_pfn) = 0 /\
+  file_size (read_bitmap_geom true bs (2 * h) (8 * h * bs) end_pfn) = 2 * h * bs.
+Proof. exact geom_strict_boundary_wrong. Qed.
+Print Assumptions C07_diskdump_strict_test_refuted.
+
+(** ** ELF: segment-based page maps (elf_get_bits, elf_find_set, elf_find_clear)
+
+    [wf_segs sh segs]: LOAD segments sorted by physical address, not overlapping,
+    filesz <= memsz, ends below 2^64, and page aligned (phys, filesz, memsz
+    multiples of 2^sh) — hence the suffix [_aligned]: unaligned segments are
+    outside these theorems.  [emapped ismem sh segs p]: frame p is covered by a
+    segment (by its file data for file.pagemap, by its memory size for
+    memory.pagemap).  [lastc] is the value of the lookup cache edp->last_load:
+    the answers are the same for all of them (history independence). *)
+Theorem C07_elf_get_bits_exact_aligned : forall ismem sh, sh < 64 ->
+  forall segs lastc first last buf,
+  wf_segs sh segs -> first <= last -> last < W -> 2 ^ sh * (last - first + 1) < W ->
+  wf_bytes buf -> length buf = S (N.to_nat ((last - first) / 8)) ->
+  exists raw, elf_get_bits ismem sh segs lastc first last buf = Val raw /\
+    length raw = length buf /\ wf_bytes raw /\
+    forall i, rbit raw i = (i <=? last - first) && emapped ismem sh segs (first + i).
+Proof. exact elf_get_bits_exact. Qed.
+Print Assumptions C07_elf_get_bits_exact_aligned.
+
+Theorem C07_elf_find_set_least_aligned : forall ismem sh, sh < 64 ->
+  forall segs lastc idx, wf_segs sh segs ->
+  match elf_find_set ismem sh segs lastc idx with
+  | None => forall q, idx <= q -> emapped ismem sh segs q = false
+  | Some r => idx <= r /\ emapped ismem sh segs r = true /\
+              forall q, idx <= q -> q < r -> emapped ismem sh segs q = false
+  end.
+Proof. exact elf_find_set_spec. Qed.
+Print Assumptions C07_elf_find_set_least_aligned.
+
+Theorem C07_elf_find_clear_least_aligned : forall ismem sh, sh < 64 ->
+  forall segs lastc idx, wf_segs sh segs -> idx < W ->
+  let r := elf_find_clear ismem sh segs lastc idx in
+  idx <= r /\ (forall q, idx <= q -> q < r -> emapped ismem sh segs q = true) /\
+  emapped ismem sh segs r = false.
+Proof. exact elf_find_clear_spec. Qed.
+Print Assumptions C07_elf_find_clear_least_aligned.
+
+Theorem C07_elf_mutually_consistent_aligned : forall ismem sh, sh < 64 ->
+  forall segs lastc first last buf idx,
+  wf_segs sh segs -> first <= last -> last < W -> 2 ^ sh * (last - first + 1) < W ->
+  wf_bytes buf -> length buf = S (N.to_nat ((last - first) / 8)) -> first <= idx -> idx <= last ->
+  exists raw, elf_get_bits ismem sh segs lastc first last buf = Val raw /\
+    match elf_find_set ismem sh segs lastc idx with
+    | Some q => (q <= last -> rbit raw (q - first) = true) /\
+                forall j, idx <= j -> j < q -> j <= last -> rbit raw (j - first) = false
+    | None => forall j, idx <= j -> j <= last -> rbit raw (j - first) = false
+    end /\
+    let q := elf_find_clear ismem sh segs lastc idx in
+    (q <= last -> rbit raw (q - first) = false) /\
+    forall j, idx <= j -> j < q -> j <= last -> rbit raw (j - first) = true.
+Proof. exact elf_mutually_consistent. Qed.
+Print Assumptions C07_elf_mutually_consistent_aligned.
+
+(** non-vacuity of the ELF statements: three aligned segments, one without file
+    data, a query window that starts inside the first and ends in the gap *)
+Example C07_elf_nonvacuous :
+  let segs := [ {| phys := 4096; filesz := 8192; memsz := 8192 |};
+                {| phys := 12288; filesz := 0; memsz := 4096 |};
+                {| phys := 32768; filesz := 4096; memsz := 12288 |} ] in
+  elf_get_bits false 12 segs (Some 2%nat) 2 9 [165] = Val [65] /\
+  elf_get_bits true 12 segs None 2 9 [165] = Val [195] /\
+  elf_find_set false 12 segs (Some 0%nat) 3 = Some 8 /\
+  elf_find_clear true 12 segs None 1 = 4 /\
+  elf_find_set false 12 segs None 4503599627370496 = None.
+Proof. vm_compute. repeat split; reflexivity. Qed.
 
 (** the pinned code does not have the property (each witness replayed on the
     real pfn.c is a finding; see known_findings.d/C07.json) *)
